@@ -255,6 +255,11 @@ class Prop:
         """run the real implementation on the case; return a JSON value"""
         raise NotImplementedError
 
+    def valid(self, case):
+        """is this (shrunk) case still inside the domain the generator draws from?  A shrinking step that leaves the
+        domain is not taken (the harness, not the code, would be what fails on it)."""
+        return True
+
     def project(self, case, out):
         """projection applied to both model and implementation output before the diff"""
         return out
@@ -492,6 +497,8 @@ def run_check(prop, argv=None):
 
     def still_fails_factory(clauses):
         def f(c):
+            if not prop.valid(c):
+                return False
             rs = evaluate(prop, [c])
             return bool(rs and set(rs[0]['failed']) & set(clauses)
                         and prop.known(c, rs[0]['impl'], rs[0]['failed'], known_entries) is None)
@@ -565,6 +572,8 @@ def run_check(prop, argv=None):
                 stream, rec = disagreements[0]
                 if rec.get('case') is not None and not rec.get('noshrink'):
                     def disagrees(c):
+                        if not prop.valid(c):
+                            return False
                         rs = evaluate(prop, [c])
                         return bool(rs and not rs[0]['agree'])
                     try:
